@@ -54,6 +54,7 @@ structure Env where
   now : Rat
   params : Nat → Option Int
   locals : Nat → Option Rat
+  result : Option Bool := none     -- for methods returning `error`: `some true` = an error was returned
 
 def _root_.Zeno.IExp.eval (e : Env) : IExp → Option Int
   | .lit n => some n
@@ -71,6 +72,9 @@ def _root_.Zeno.RExp.eval (e : Env) : RExp → Option Rat
   | .add a b => do let x ← a.eval e; let y ← b.eval e; pure (x + y)
   | .sub a b => do let x ← a.eval e; let y ← b.eval e; pure (x - y)
   | .mul a b => do let x ← a.eval e; let y ← b.eval e; pure (x * y)
+  | .div a b => do let x ← a.eval e; let y ← b.eval e; pure (x / y)
+  | .ceil a => do let x ← a.eval e; pure ((x.ceil : Int) : Rat)
+  | .u64 a => do let x ← a.eval e; if x < 0 ∨ (18446744073709551616 : Rat) ≤ x then none else pure ((x.floor : Int) : Rat)
   | .min a b => do let x ← a.eval e; let y ← b.eval e; pure (min x y)
   | .max a b => do let x ← a.eval e; let y ← b.eval e; pure (max x y)
   | .pow base ie => do let n ← IExp.eval e ie; if 0 ≤ n then pure (base ^ n.toNat) else none
@@ -116,6 +120,8 @@ def _root_.Zeno.AStmt.exec (callee : TB → Rat → Option TB) (e : Env) : AStmt
     | some false => f.exec callee e
     | none => .bad
   | .ret => .returned e
+  | .retNil => .returned { e with result := some false }
+  | .retErr => .returned { e with result := some true }
   | .lock => .fell e
   | .unlock => .fell e
   | .deferUnlock => .fell e
@@ -186,7 +192,8 @@ def _root_.Zeno.IExp.touches : IExp → Bool
 
 def _root_.Zeno.RExp.touches : RExp → Bool
   | .fld _ => true
-  | .add a b | .sub a b | .mul a b | .min a b | .max a b => a.touches || b.touches
+  | .add a b | .sub a b | .mul a b | .div a b | .min a b | .max a b => a.touches || b.touches
+  | .ceil a | .u64 a => a.touches
   | .pow _ e | .ofInt e => IExp.touches e
   | .durOfNs a => a.touches
   | _ => false
@@ -218,7 +225,7 @@ def _root_.Zeno.AStmt.locked (st : LS) : AStmt → Bool × Option LS
     | none, r => (ok, r)
     | r, none => (ok, r)
     | some x, some y => (ok && x == y, some x)
-  | .ret => (!st.held || st.deferred, none)
+  | .ret | .retNil | .retErr => (!st.held || st.deferred, none)
   | .lock => (!st.held, some { st with held := true })      -- locking twice would block for ever
   | .unlock => (st.held && !st.deferred, some { st with held := false })
   | .deferUnlock => (st.held && !st.deferred, some { st with deferred := true })
